@@ -230,7 +230,7 @@ def C20(ctx):
     ctx.rule("B.view-index", "fmt()/{}-spec parser: every subscript of the format view is dominated by index < size()", 4)
     RP.check_view_index_bounded(ctx, "B.view-index", [f for f in uf.functions if "fmt_impl" in f.uq or "fmt_impl" in (f.owner_cls or "") or f.uq.startswith("frg::parse_arguments")])
     ctx.rule("W.cmdline-api-only", "parse_arguments touches the command line only through find_first/sub_string/size/"
-             "comparison: no subscript, no pointer arithmetic", 2)
+             "comparison: no subscript, no pointer arithmetic", 1)
     RP.check_cmdline_api_only(ctx, "W.cmdline-api-only", uf)
     ctx.rule("B5.substring-assert", "sub_string() guards its pointer arithmetic with an assertion that cannot wrap", 1)
     ctx.rule("B.view-subscript-bounded", "view searches stay inside [0, length)", 6)
